@@ -36,6 +36,8 @@ CONSTANTS Base = 4
 INVARIANT ApiIsRule
 INVARIANT FfiIsRule
 INVARIANT PathsAgree
+INVARIANT ApiStructIsRule
+INVARIANT FfiStructIsRule
 INVARIANT DigitsSound
 CHECK_DEADLOCK FALSE
 """
@@ -60,8 +62,9 @@ INVARIANT ArgsIntact
 INVARIANT ResultIntact
 CHECK_DEADLOCK FALSE
 """
-XB_VARIANTS = (("off0_zero", "ArgsIntact"), ("size_short", "InBounds"))
-VARIANTS = (("api_uge", "ApiIsRule"), ("ffi_zeroext", "FfiIsRule"), ("bool_range", "FfiIsRule"))
+XB_VARIANTS = (("off0_zero", "ArgsIntact"), ("size_short", "InBounds"), ("struct_nozero", "ArgsIntact"))
+VARIANTS = (("api_uge", "ApiIsRule"), ("ffi_zeroext", "FfiIsRule"), ("bool_range", "FfiIsRule"),
+            ("api_struct_nozero", "ApiStructIsRule"), ("ffi_struct_nozero", "FfiStructIsRule"))
 
 
 def design_level(ctx):
@@ -90,7 +93,7 @@ def design_level(ctx):
         for (v, inv), f in zip(VARIANTS, fvs):
             r = f.result()
             ctx.add_tlc("sanity:" + v, r, require_ok=False, count_states=False)
-            if r.ok or inv not in r.invariant_violated:
+            if r.ok or not ({inv, "PathsAgree"} & set(r.invariant_violated)):
                 raise core.MachineryError("broken variant %s of the conversion model was not rejected by TLC (%s)" % (
                     v, r.invariant_violated))
         ctx.add_tlc("CallXbuf(MaxN=%d)" % (2 if q else 3), fxb.result())
